@@ -3,9 +3,9 @@
 Lock-step machinery with a getter-heavy mix: get_measurements, get_tag_keys, get_tag_values (all / selected / unknown / duplicate keys),
 get_field_keys, get_field_values, get_timestamps, len, iteration, all(sorted / unsorted), and the Measurement-handle versions, for
 measurement filter in {none, present, absent}; compared with the reference model (documented orders: sorted keys and names, None last in
-tag values, insertion order for field values and timestamps) with a valid index and without one, on CSV and memory.
+tag values, insertion order for field values and timestamps) with a valid index and without one, on CSV (also with flush_on_insert=False) and memory.
 """
-from .. import histcheck
+from .. import histcheck, lockstep
 
 ID = "C07"
 LEVEL = "exploration"
@@ -43,8 +43,10 @@ def classify(ls, ops):
 
 
 HOOKS = (hook,)
-run_shard = histcheck.make_run_shard("getters", classify, HOOKS)
-replay = histcheck.make_replay(HOOKS)
+# a fifth configuration: CSV without flushing on insert (rows may still sit in the write buffer when a getter runs)
+CONFIGS5 = lockstep.CONFIGS + [("csv", False, {"flush_on_insert": False}, ":noflush")]
+run_shard = histcheck.make_run_shard("getters", classify, HOOKS, configs=CONFIGS5)
+replay = histcheck.make_replay(HOOKS, configs=CONFIGS5)
 
 
 def shards(tier):
